@@ -2,8 +2,8 @@
 
    (1) normalisation, per variable definition and in this order (astnormalization, walker stage
        "variablesProcessing" of OperationNormalizer as set up by WithExtractVariables):
-         inputCoercionForList        -> [coerce_j]       (input_coercion_for_list.go)
          extractVariablesDefaultValue-> [extract_default] (variables_default_value_extraction.go)
+         inputCoercionForList        -> [coerce_j]       (input_coercion_for_list.go)
          injectInputFieldDefaults    -> [inject]          (inject_input_default_values.go)
    (2) variablesvalidation.VariablesValidator.Validate   -> [validate]
 
@@ -701,13 +701,13 @@ Section Pipeline.
 
   Definition norm_var (vd : vardef) (ms : list (bytes * json)) : nres :=
     let n := vd_name vd in
-    (* 1. list coercion (only when the variable is present) *)
-    let ms1 := match obj_get n ms with
-               | Some v => set_member n (coerce_j S v (vd_type vd)) ms
-               | None => ms
+    (* 1. default of the variable (be45b91: before list coercion, so that the default is coerced too) *)
+    let ms1 := extract_default q vd ms in
+    (* 2. list coercion (only when the variable is present by now) *)
+    let ms2 := match obj_get n ms1 with
+               | Some v => set_member n (coerce_j S v (vd_type vd)) ms1
+               | None => ms1
                end in
-    (* 2. default of the variable *)
-    let ms2 := extract_default q vd ms1 in
     (* 3. defaults of input fields *)
     match obj_get n ms2 with
     | None => NOk ms2
